@@ -22,7 +22,7 @@ vars == <<st, act, res, xfers, hooks, extra, ghost, hist>>
 
 S0 == [InitState(Bal0, Params0, FALSE) EXCEPT !.nl = NL]
 InitAct == [a |-> "Init", users |-> UserSeq, na |-> NA, grid |-> D, bal0 |-> Bal0, params |-> Params0, listeners |-> NL]
-NoExtra == [panic |-> FALSE, nx |-> 0, validate_ok |-> TRUE]
+NoExtra == [panic |-> FALSE, nx |-> 0, validate_ok |-> TRUE, answer |-> <<>>]
 
 Init ==
   /\ st = S0
@@ -35,7 +35,9 @@ Init ==
   /\ hist = <<>>
 
 ExtraOf(s, m) ==
-  IF m.a = "Block" THEN [NoExtra EXCEPT !.nx = Len(BlockRun(s, m.t).xs)] ELSE NoExtra
+  IF m.a = "Block" THEN [NoExtra EXCEPT !.nx = Len(BlockRun(s, m.t).xs)]
+  ELSE IF m.a = "Query" THEN [NoExtra EXCEPT !.answer = QueryAnswer(s, m)]
+  ELSE NoExtra
 
 StepRec(s, m, r) == [pre |-> s, act |-> m, res |-> [ok |-> r.ok, err |-> r.err], post |-> r.st,
                      xfers |-> r.xfers, hooks |-> r.hooks, extra |-> ExtraOf(s, m)]
@@ -64,11 +66,12 @@ BeginBlock              == \E m \in Inputs("Block", st, ghost) : Apply(m)
 Donate                  == \E m \in Inputs("Donate", st, ghost) : Apply(m)
 UpdateParams            == \E m \in Inputs("UpdateParams", st, ghost) : Apply(m)
 GenesisRoundTrip        == \E m \in Inputs("Genesis", st, ghost) : Apply(m)
+Query                   == \E m \in Inputs("Query", st, ghost) : Apply(m)
 
 Next ==
   \/ CreateFixedPriceAuction \/ CreateBatchAuction \/ CancelAuction
   \/ AddAllowedBidders \/ UpdateAllowedBidder \/ MsgAddAllowedBidder
-  \/ PlaceBid \/ ModifyBid \/ BeginBlock \/ Donate \/ UpdateParams \/ GenesisRoundTrip
+  \/ PlaceBid \/ ModifyBid \/ BeginBlock \/ Donate \/ UpdateParams \/ GenesisRoundTrip \/ Query
 
 Spec == Init /\ [][Next]_vars
 
@@ -76,7 +79,7 @@ Spec == Init /\ [][Next]_vars
 (* so that behaviours make progress (blocks, bids) instead of sampling mostly rejected   *)
 (* messages; if nothing of that kind is offered any other kind is taken.                 *)
 AllKinds == {"CreateFixed", "CreateBatch", "Cancel", "AddAllowed", "UpdateAllowed", "MsgAddAllowed",
-             "Bid", "Modify", "Block", "Donate", "UpdateParams", "Genesis",
+             "Bid", "Modify", "Block", "Donate", "UpdateParams", "Genesis", "Query",
              "OddCreate", "OddBid", "OddModify", "OddAllow", "OddCancel"}
 GenNext ==
   \* (bound variables are evaluated once; a LET would be re-evaluated at every use, and RandomElement re-drawn)
